@@ -199,6 +199,14 @@ pub(crate) fn run(seed: u64, n: u64, out: &mut Out) {
                 7 => { what = "unknown-peer"; peer = stranger; }
                 8 if filters.len() >= 2 => { what = "swapped"; let j = rng.below(filters.len() as u64 - 1) as usize; filters.swap(j, j + 1); hashes.swap(j, j + 1); }
                 9 => { what = "other-branch"; let b = serve_block_filters(&other, start, honest_batch); filters = b.filters().into_iter().collect(); hashes = b.block_hashes().into_iter().collect(); }
+                11 if !hashes.is_empty() && ids.contains(&peer) => {
+                    // the peer first ANNOUNCES a header (a last state is only an announcement, nothing proves it), then names it
+                    // as the block of every filter of the batch: only the PROVEN header may skip the block proof
+                    what = "substituted-by-announced-header";
+                    net.lc_recv(peer, super::prover::last_state_message(&other.chain, other.tip()).as_bytes());
+                    let h = other.chain.headers[other.tip() as usize].hash();
+                    for x in hashes.iter_mut() { *x = h.clone(); }
+                }
                 10 => { what = "long-batch"; let b = serve_block_filters(&bc, start, 3 * interval); filters = b.filters().into_iter().collect(); hashes = b.block_hashes().into_iter().collect(); }
                 _ => {}
             }
@@ -291,6 +299,16 @@ pub(crate) fn run(seed: u64, n: u64, out: &mut Out) {
             };
             if r.panicked { problems.push(format!("[C10-filter-panic] BlockFilters made the handler panic: {}", super::last_panic())); }
             if let Some(q) = quorum_problem { problems.push(q); }
+            // a record may be marked "proved" (no block proof asked) only for the header this peer has PROVEN
+            if let Some((s0, _, bl)) = &new_record {
+                let proven: Option<packed::Byte32> = net.peers.get_state(&peer).and_then(|st| st.get_prove_state().map(|ps| ps.get_last_header().header().hash()));
+                for (j, (h, p)) in bl.iter().enumerate() {
+                    if *p && Some(h) != proven.as_ref() {
+                        problems.push(format!("[C06-unproven-block-marked-proved] entry {} of the record starting at {} is marked proved although its hash is not the sender's proven header ({})", j, s0, what));
+                        break;
+                    }
+                }
+            }
             // ---- oracles (from the generated chain, independent of the model) ----
             // authenticity: progress only over filters that are the chain's own filters at those heights
             if min_after > min_before {
